@@ -103,6 +103,39 @@ func init() {
 		ex.intr["(*os.File).WriteString"] = func(ex *Exec, fr *Frame, a []Value) Value { return write(ex, fr, a, a[1].(*StrV)) }
 		ex.intr["(*os.File).Close"] = func(ex *Exec, fr *Frame, a []Value) Value { return nilErr }
 		ex.intr["(*os.File).Sync"] = func(ex *Exec, fr *Frame, a []Value) Value { return nilErr }
+		// os.Stat / os.Lstat: an *os.fileStat holding name and size (the real methods read the fields)
+		stat := func(ex *Exec, fr *Frame, a []Value) Value {
+			name := ex.concStr(a[0], "Stat name")
+			f, ok := ex.fs[name]
+			if !ok {
+				return TupleV{IfaceV{}, errorIface(ex, ex.cstr("stat "+name+": no such file or directory"))}
+			}
+			ft := ex.namedType("os", "fileStat")
+			if ft == nil {
+				ex.unsupported("os.fileStat not in the program")
+			}
+			sv := ex.zero(ft).(*StructV)
+			st := ft.Underlying().(*types.Struct)
+			base := name
+			for i := len(name) - 1; i >= 0; i-- {
+				if name[i] == '/' {
+					base = name[i+1:]
+					break
+				}
+			}
+			for i := 0; i < st.NumFields(); i++ {
+				switch st.Field(i).Name() {
+				case "name":
+					sv.fields[i] = ex.cstr(base)
+				case "size":
+					sv.fields[i] = ex.strLen(f.content)
+				}
+			}
+			o := ex.newObj(sv, ft, "os.fileStat")
+			return TupleV{IfaceV{t: types.NewPointer(ft), v: PtrV{obj: o}}, nilErr}
+		}
+		ex.intr["os.Stat"] = stat
+		ex.intr["os.Lstat"] = stat
 		// harness side
 		ex.intr["vf:vfFSRoot"] = func(ex *Exec, fr *Frame, a []Value) Value { return ex.cstr("/vfs") }
 		ex.intr["vf:vfFSPut"] = func(ex *Exec, fr *Frame, a []Value) Value {
